@@ -1,6 +1,6 @@
 (* C15 - configuration text is parsed robustly and line-independently.
    Statements only; proofs are in Config/*_proofs.v, witnesses in Config/Witness.v. *)
-From CAres.Config Require Import Spec Vif Lines_proofs Total_proofs Ranges_proofs Witness.
+From CAres.Config Require Import Spec Vif Lines_proofs Total_proofs Ranges_proofs Chan_ranges Witness.
 From CAres.Gen Require Import Consts.
 From Coq Require Import String.
 Local Open Scope string_scope.
@@ -104,3 +104,15 @@ Theorem C15_ranges_reinit_servers_refuted :
     (match reinit nf (env_of_resolv "# nothing") chan_a with Ok c => Some c | _ => None end) = Some 1%nat.
 Proof. exact witness_reinit_no_servers. Qed.
 Print Assumptions C15_ranges_reinit_servers_refuted.
+
+(* C15_ranges, channel level: for all options, files and environment, a channel returned by
+   ares_init_options has a positive timeout and try count, at least one server and a lookup
+   order (ARES_CONFIG_CHECK); what the application did not set is a 32-bit value. *)
+Theorem C15_ranges_channel : forall nf e o m c,
+  init_options nf e o m = Ok c ->
+  (0 < c_timeout c)%Z /\ (0 < c_tries c)%Z /\ c_servers c <> [] /\ c_lookups c <> None /\
+  (has (c_optmask c) B_NDOTS = false -> (0 <= c_ndots c < 2 ^ 32)%Z) /\
+  (has (c_optmask c) B_TIMEOUTMS = false -> (c_timeout c < 2 ^ 32)%Z) /\
+  (has (c_optmask c) B_TRIES = false -> (c_tries c < 2 ^ 32)%Z).
+Proof. exact Chan_ranges.init_options_ranges. Qed.
+Print Assumptions C15_ranges_channel.
